@@ -304,6 +304,138 @@ def cases_types(rng, quick):
                     yield f"{name}.next", o, [i], (lambda o, i=i: o.next(i)), w
 
 
+# ---------------------------------------------------------------------------------------------- frame object
+
+from pyplumio import frames as fr  # noqa: E402
+from pyplumio.const import DeviceType, FrameType  # noqa: E402
+
+
+class TestFrame(fr.Frame):
+    """the concrete kind the translated base class is validated with: the same members as `PyT.testEnv`"""
+
+    __slots__ = ()
+    frame_type = FrameType(49)
+
+    def create_message(self, data):
+        m = data.get("m", b"")
+        if not isinstance(m, (bytes, bytearray)):
+            raise ValueError
+        return bytearray(m)
+
+    def decode_message(self, message):
+        if message[:1] == b"\xee":
+            raise ValueError
+        return {"m": bytes(message)}
+
+
+TestFrame.__name__ = "Frame"
+FRAME_SLOTS = ["recipient", "sender", "econet_type", "econet_version", "_handler", "_message", "_data"]
+
+
+def enc_dict(d):
+    return "E" + "+".join(hexs(k.encode()) + "/" + pycode.enc_scalar(x) for k, x in d.items())
+
+
+def frame_states(rng, quick):
+    msgs = [None, bytearray(), bytearray(b"\x01\x02"), bytearray(b"\xee\x01"), bytearray(range(40)), bytearray(300)]
+    datas = [None, {}, {"m": b"\x07"}, {"m": b""}, {"m": 5}, {"x": 1}, {"m": bytes(70), "y": True}]
+    hdrs = [(0, 86, 48, 5), (DeviceType.ECOMAX, DeviceType.ECONET, 48, 5), (255, 0, 0, 255), (256, 86, 48, 5), (0, -1, 48, 5),
+            (0, 86, 300, 5), (0, 86, 48, 70000)]
+    n = 40 if quick else 400
+    for _ in range(n):
+        yield rng.choice(hdrs) if rng.random() < 0.4 else hdrs[0], rng.choice(msgs), rng.choice(datas)
+    yield hdrs[0], bytearray(65526), None
+    yield hdrs[0], bytearray(65525), None
+
+
+def mk_frame(hdr, msg, data):
+    f = TestFrame.__new__(TestFrame)
+    f.recipient, f.sender, f.econet_type, f.econet_version = hdr
+    f._handler = None
+    f._message = None if msg is None else bytearray(msg)
+    f._data = None if data is None else dict(data)
+    return f
+
+
+def enc_frame(f):
+    parts = []
+    for n in FRAME_SLOTS:
+        v = slot_get(f, n)
+        a = "~" if v is UNSET else (enc_dict(v) if isinstance(v, dict) else pycode.enc_scalar(int(v) if isinstance(v, int) and not isinstance(v, bool) else v))
+        parts.append(f"{n}={a}")
+    return "OFrame:" + ";".join(parts)
+
+
+def show_frame(f):
+    def sv(v):
+        if v is UNSET:
+            return "~"
+        return pycode.show(int(v) if isinstance(v, int) and not isinstance(v, bool) else v)
+    return "Frame{" + ",".join(f"{n}={sv(slot_get(f, n))}" for n in FRAME_SLOTS) + "}"
+
+
+def cases_frameobj(rng, quick):
+    """(qualified name, frame state, extra argument atoms, python thunk on a fresh frame in that state)"""
+    for hdr, msg, data in frame_states(rng, quick):
+        for name, thunk in (("message", lambda f: f.message), ("data", lambda f: f.data), ("length", lambda f: f.length),
+                            ("__len__", lambda f: f.__len__()), ("header", lambda f: f.header), ("bytes", lambda f: f.bytes)):
+            yield f"Frame.{name}", (hdr, msg, data), [], thunk
+        for m in (bytearray(), bytearray(b"\x09\x08"), None):
+            yield "Frame.message.setter", (hdr, msg, data), [m], (lambda f, m=m: setattr(f, "message", m))
+        for d in ({}, {"m": b"\x05"}, None):
+            yield "Frame.data.setter", (hdr, msg, data), [d], (lambda f, d=d: setattr(f, "data", d))
+    for hdr, msg, data in list(frame_states(rng, True))[:12]:
+        for kw in ({}, {"m": b"\x01"}, {"z": 3}):
+            args = [int(hdr[0]), int(hdr[1]), hdr[2], hdr[3], msg, data, kw]
+            yield "Frame.new", None, args, (lambda args=args: TestFrame(*args[:6], **args[6]))
+
+
+def check_frameobj(res, rng, tier):
+    quick = tier == "quick"
+    have = set(driver_batch(["pyt-functions"])[0].split())
+    reqs, expect, inputs = [], [], []
+    missing = set()
+    for name, state, args, thunk in cases_frameobj(rng, quick):
+        if name not in have:
+            missing.add(name)
+            continue
+        atoms = []
+        if state is not None:
+            atoms.append(enc_frame(mk_frame(*state)))
+        for a in args:
+            atoms.append(enc_dict(a) if isinstance(a, dict) and state is None and False else pycode.enc(a))
+        try:
+            if state is not None:
+                f = mk_frame(*state)
+                r = thunk(f)
+                exp = "ok (" + pycode.show(r) + "," + show_frame(f) + ")"
+            else:
+                exp = "ok " + show_frame(thunk())
+        except Exception as e:  # noqa: BLE001
+            exp = "err " + exc_name(e)
+        reqs.append(f"pyt {name} 0 " + " ".join(atoms))
+        expect.append(exp)
+        inputs.append(dict(function=name, state=repr(state)[:200], args=[repr(a)[:80] for a in args]))
+    answers = driver_batch(reqs)
+    for line, exp, ans, inp in zip(reqs, expect, answers, inputs):
+        res.case(("pycode_types", line[:300]))
+        if ans.startswith("err unsupported"):
+            res.count("pycode_types: outside the prelude's modelled domain (declined, not compared)")
+            continue
+        res.count("pycode_types:Frame")
+        if ans == "bad-op":
+            res.fail("corr", dict(inp, request=line[:400]), "an answer of the generated definition", "bad-op",
+                     f"translated {inp['function']}: the driver has no generated definition of that name/arity, or the input could not be written down")
+        elif ans != exp:
+            res.fail("corr", dict(inp, request=line[:400]), dict(generated_lean=ans[:600]), dict(python=exp[:600]),
+                     f"translated {inp['function']} (Generated/PyCodeTypes.lean via tools/py2lean_types.py + PyPreludeTypes) and the Python method differ")
+    if missing:
+        res.notes.append("pycode_types: not translated on this tree (outside the translator's subset), not compared: " + ", ".join(sorted(missing)))
+    res.notes.append(f"pycode_types: {len(reqs)} evaluations of the translated frame object (getters, setters, length, header, bytes, construction) "
+                     "compared with a real Frame subclass (result and slots afterwards)")
+    return len(reqs)
+
+
 GROUPS = {"types": cases_types}
 
 
@@ -312,6 +444,12 @@ def check(res, rng, tier, groups):
     reqs, expect, inputs = [], [], []
     have = set(driver_batch(["pyt-functions"])[0].split())
     missing = set()
+    extra = 0
+    if "frameobj" in groups:
+        extra = check_frameobj(res, rng, tier)
+        groups = [g for g in groups if g != "frameobj"]
+        if not groups:
+            return extra
     for g in groups:
         for name, inst, args, thunk, w in GROUPS[g](rng, quick):
             if name not in have:
